@@ -10,6 +10,7 @@ from __future__ import annotations
 
 import datetime as dt_
 
+from .. import worker
 from .. import core, obs
 from . import c03
 
@@ -148,7 +149,8 @@ def run_shard(shard):
             if u % (3600 * US) in (0, 1, 3600 * US - 1) or u < 2 * US or u > DAYUS - 2 * US:
                 acc.c["nontrivial"] += 1
             for i, kw in enumerate(amounts):
-                check_arith(acc, pendulum, u, kw, variants=shard["thorough"] or (i + u) % 2 == 0)
+                with worker.guarded(acc, "add", {"kind": "arith", "u": u, "kw": kw}):
+                    check_arith(acc, pendulum, u, kw, variants=shard["thorough"] or (i + u) % 2 == 0)
         acc.sample({"time": us_fields(shard["times"][0]), "amount": amounts[5]})
     elif shard["kind"] == "arith_range":
         for sec in range(shard["s0"], shard["s1"]):
@@ -163,7 +165,8 @@ def run_shard(shard):
         pts = shard["points"]
         for u1 in shard["left"]:
             for u2 in pts:
-                check_pair(acc, pendulum, u1, u2)
+                with worker.guarded(acc, "diff", {"kind": "pair", "u1": u1, "u2": u2}):
+                    check_pair(acc, pendulum, u1, u2)
                 if (u2 - u1) % US:
                     acc.c["nontrivial"] += 1
         acc.c["states"] += len(shard["left"])
